@@ -62,6 +62,8 @@ package multiendpoint
 //@   ensures [C13,C15,C16 reject-empty] len(endpoints) == 0 ==> result != nil && me.current == old(me.current) && (forall id string :: (id in me.endpoints) == old(id in me.endpoints))
 //@   ensures [C13,C15,C16 set-dom] len(endpoints) > 0 ==> result == nil && (forall j, x in endpoints :: x in me.endpoints) && (forall id in me.endpoints :: exists j, x in endpoints :: x == id)
 //@   ensures [C13.removed-first] len(endpoints) > 0 && noneAvail(me) && !oldCurKept(me) ==> me.current == endpoints[0]
+// endpoints that stay in the list stay the same objects with the same state (pending recovery timers refer to them)
+//@   ensures [C13,C14 kept-identity] forall id string :: {id in me.endpoints} old(id in me.endpoints) && id in me.endpoints ==> me.endpoints[id] == old(me.endpoints[id]) && me.endpoints[id].status == old(me.endpoints[id].status) && me.endpoints[id].lastChange == old(me.endpoints[id].lastChange)
 //@   ensures [C13.switch-now] c13SwitchNow(me)
 //@   ensures [C13.sticky] c13Sticky(me)
 //@   ensures [C13.nodelay-recovering] c13NoDelayRecovering(me)
